@@ -28,6 +28,11 @@ type HeaderFooterRegion struct {
 
 	// PageIndices lists which pages have this header/footer
 	PageIndices []int
+
+	// pattern is the digit-normalized text shared by the candidates this region
+	// was detected from (e.g. "Report - #"). FilterFragments uses it to recognise
+	// the region's own fragments when Text was replaced by a placeholder.
+	pattern string
 }
 
 // RegionType indicates whether a region is a header or footer
@@ -457,6 +462,7 @@ func (d *HeaderFooterDetector) findRepeatingPatterns(candidates []candidate, pag
 			IsPageNumber: isPageNum,
 			Confidence:   confidence,
 			PageIndices:  pageIndices,
+			pattern:      normalizedText,
 		})
 	}
 
@@ -723,7 +729,7 @@ func (r *HeaderFooterResult) isInHeaderFooter(pageIndex int, frag text.TextFragm
 			if charLevel {
 				return true
 			}
-			if textsMatch(frag.Text, header.Text, header.IsPageNumber) {
+			if header.matches(frag.Text) {
 				return true
 			}
 		}
@@ -746,7 +752,7 @@ func (r *HeaderFooterResult) isInHeaderFooter(pageIndex int, frag text.TextFragm
 			if charLevel {
 				return true
 			}
-			if textsMatch(frag.Text, footer.Text, footer.IsPageNumber) {
+			if footer.matches(frag.Text) {
 				return true
 			}
 		}
@@ -762,6 +768,24 @@ func containsPage(pages []int, pageIndex int) bool {
 			return true
 		}
 	}
+	return false
+}
+
+// matches checks if a fragment's text belongs to this region
+func (region *HeaderFooterRegion) matches(fragText string) bool {
+	if textsMatch(fragText, region.Text, region.IsPageNumber) {
+		return true
+	}
+
+	// A line that carries a running number but is not a bare page number
+	// (e.g. "Report - 3", "Seite 3") is detected as a page-number region and
+	// its Text replaced by a placeholder, so textsMatch can never recognise
+	// the region's own fragments. Compare against the normalized text the
+	// candidates were grouped under instead.
+	if region.IsPageNumber && region.pattern != "" {
+		return normalizeForComparison(strings.TrimSpace(fragText)) == region.pattern
+	}
+
 	return false
 }
 
